@@ -37,27 +37,34 @@ Proof.
   - apply IH. assumption.
 Qed.
 
-(* pivot_cells: the implementation's cell is the relational cell *)
-Theorem pivot_cell_refines : forall fill (rows : list prow) i c k fn, singleton_idem apply fn ->
-  M_pivot_cell ieqb ceqb apply fill rows i c k fn = S_pivot_cell ieqb ceqb apply fill rows i c k fn.
+(* pivot_cells: the implementation's cell is the relational cell -- unconditionally once neither shortcut is in
+   the source, for functions with f [v] = v while one of them is *)
+Definition shortcut_guard (bypass raw : bool) (fn : F) : Prop := (bypass = true \/ raw = true) -> singleton_idem apply fn.
+
+Theorem pivot_cell_refines : forall bypass raw fill (rows : list prow) i c k fn, shortcut_guard bypass raw fn ->
+  M_pivot_cell ieqb ceqb apply bypass raw fill rows i c k fn = S_pivot_cell ieqb ceqb apply fill rows i c k fn.
 Proof.
-  intros fill rows i c k fn Hid. unfold M_pivot_cell, S_pivot_cell.
+  intros bypass raw fill rows i c k fn Hid. unfold M_pivot_cell, S_pivot_cell.
   rewrite <- (filter_filter (fun r : prow => ieqb i (p_i r)) (fun r => ceqb c (p_c r))).
   set (sub := filter (fun r : prow => ceqb c (p_c r)) rows).
-  destruct (has_dup ieqb (map p_i sub)) eqn:Hd.
-  - unfold agg_or_single.
-    destruct (field_values k fill (filter (fun r : prow => ieqb i (p_i r)) sub)) as [|v [|w vs]];
-      [reflexivity|symmetry; apply Hid|reflexivity].
-  - rewrite (filter_find_nodup sub i Hd).
-    destruct (find (fun r : prow => ieqb i (p_i r)) sub); cbn; [symmetry; apply Hid|reflexivity].
+  assert (Hagg : agg_or_single apply bypass fill fn (field_values k fill (filter (fun r : prow => ieqb i (p_i r)) sub)) =
+                 match field_values k fill (filter (fun r : prow => ieqb i (p_i r)) sub) with [] => fill | _ :: _ => apply fn (field_values k fill (filter (fun r : prow => ieqb i (p_i r)) sub)) end).
+  { unfold agg_or_single.
+    destruct (field_values k fill (filter (fun r : prow => ieqb i (p_i r)) sub)) as [|v [|w vs]]; try reflexivity.
+    destruct bypass eqn:Eb; [|reflexivity]. symmetry. apply Hid. left. reflexivity. }
+  destruct (negb raw || has_dup ieqb (map p_i sub)) eqn:Hd.
+  - rewrite Hagg. destruct (field_values k fill (filter (fun r : prow => ieqb i (p_i r)) sub)); reflexivity.
+  - apply orb_false_iff in Hd as [Hr Hd]. apply negb_false_iff in Hr.
+    rewrite (filter_find_nodup sub i Hd).
+    destruct (find (fun r : prow => ieqb i (p_i r)) sub); cbn; [symmetry; apply Hid; right; assumption|reflexivity].
 Qed.
 
-Theorem pivot0_cell_refines : forall fill (rows : list prow) i k fn, singleton_idem apply fn ->
-  M_pivot0_cell ieqb apply fill rows i k fn = S_pivot0_cell ieqb apply fill rows i k fn.
+Theorem pivot0_cell_refines : forall bypass raw fill (rows : list prow) i k fn, shortcut_guard bypass raw fn ->
+  M_pivot0_cell ieqb apply bypass fill rows i k fn = S_pivot0_cell ieqb apply fill rows i k fn.
 Proof.
-  intros fill rows i k fn Hid. unfold M_pivot0_cell, S_pivot0_cell, agg_or_single.
-  destruct (field_values k fill (filter (fun r : prow => ieqb i (p_i r)) rows)) as [|v [|w vs]];
-    [reflexivity|symmetry; apply Hid|reflexivity].
+  intros bypass raw fill rows i k fn Hid. unfold M_pivot0_cell, S_pivot0_cell, agg_or_single.
+  destruct (field_values k fill (filter (fun r : prow => ieqb i (p_i r)) rows)) as [|v [|w vs]]; try reflexivity.
+  destruct bypass eqn:Eb; [|reflexivity]. symmetry. apply Hid. left. reflexivity.
 Qed.
 
 (* the whole frame: M_pivot is the relational cell map tabulated over the sorted distinct keys *)
@@ -67,28 +74,28 @@ Proof.
   intros H. unfold tab. apply map_ext_in. intros r Hr. apply map_ext_in. intros c Hc. apply H; assumption.
 Qed.
 
-Theorem pivot_refines : forall fill nd funcs (rows : list prow),
-  (forall fn, In fn funcs -> singleton_idem apply fn) ->
-  M_pivot ieqb ceqb isort csort apply fill nd funcs rows =
+Theorem pivot_refines : forall bypass raw fill nd funcs (rows : list prow),
+  (forall fn, In fn funcs -> shortcut_guard bypass raw fn) ->
+  M_pivot ieqb ceqb isort csort apply bypass raw fill nd funcs rows =
   mk_sframe (isort (index_keys ieqb rows)) (pivot_columns ceqb csort rows nd funcs)
     (tab (isort (index_keys ieqb rows)) (pivot_columns ceqb csort rows nd funcs)
          (fun i ckf => S_pivot_cell ieqb ceqb apply fill rows i (fst ckf) (fst (snd ckf)) (snd (snd ckf)))).
 Proof.
-  intros fill nd funcs rows H. unfold M_pivot. f_equal. apply tab_ext_in.
+  intros bypass raw fill nd funcs rows H. unfold M_pivot. f_equal. apply tab_ext_in.
   intros i [c [k fn]] _ Hc. cbn. apply pivot_cell_refines. apply H.
   unfold pivot_columns in Hc. apply in_product in Hc as [_ Hc]. apply in_product in Hc as [_ Hc]. exact Hc.
 Qed.
 
 (* pivot_shape: one row per distinct index-field value, one column per distinct column-field value
    x data field x function -- whatever order the sort puts them in *)
-Theorem pivot_shape : forall fill nd funcs (rows : list prow),
+Theorem pivot_shape : forall bypass raw fill nd funcs (rows : list prow),
   (forall l, Permutation (isort l) l) -> (forall l, Permutation (csort l) l) ->
-  let m := M_pivot ieqb ceqb isort csort apply fill nd funcs rows in
+  let m := M_pivot ieqb ceqb isort csort apply bypass raw fill nd funcs rows in
   NoDup (sf_rows m) /\ (forall i, In i (sf_rows m) <-> exists r, In r rows /\ p_i r = i) /\
   (NoDup funcs -> NoDup (sf_cols m)) /\
   (forall c k fn, In (c, (k, fn)) (sf_cols m) <-> (exists r, In r rows /\ p_c r = c) /\ (k < nd)%nat /\ In fn funcs).
 Proof.
-  intros fill nd funcs rows Hi Hc m. unfold m, M_pivot. cbn [sf_rows sf_cols].
+  intros bypass raw fill nd funcs rows Hi Hc m. unfold m, M_pivot. cbn [sf_rows sf_cols].
   repeat split.
   - eapply Permutation_NoDup; [apply Permutation_sym; apply Hi|]. apply NoDup_uniq. exact ieqb_spec.
   - intros H. eapply Permutation_in in H; [|apply Hi]. unfold index_keys in H.
